@@ -1,8 +1,174 @@
-/- driver component stub: replaced by the real component when its model exists -/
+/-
+  driver component `ptn`: formatMove / parseMove / PTN.parse / Spec.ptnDenote and the C14 predicates
+  evaluated on implementation data.
+
+  Strings travel hex-encoded: code points in hex joined by `.`, the empty string is `_`.
+-/
 import TakVerif.Driver.Ser
+import TakVerif.Model.PTN
+import TakVerif.Lemmas.PTNMove
+import TakVerif.Spec.PTNGrammar
 
 namespace Tak.Driver.PTN
+open Tak.Ser Tak.PTN
 
-def handle : List String → Option String := fun _ => none
+def hexDigit (c : Char) : Option Nat :=
+  if '0' ≤ c ∧ c ≤ '9' then some (c.toNat - 48)
+  else if 'a' ≤ c ∧ c ≤ 'f' then some (c.toNat - 87)
+  else if 'A' ≤ c ∧ c ≤ 'F' then some (c.toNat - 55)
+  else none
+
+def hexNat (s : String) : Option Nat :=
+  if s.isEmpty then none else
+  s.toList.foldl (fun acc c => do let a ← acc; let d ← hexDigit c; pure (16 * a + d)) (some 0)
+
+/-- a surrogate or out-of-range code point is not a Lean `Char`: refuse (never a default) -/
+def charOfCode (n : Nat) : Option Char :=
+  if h : n.isValidChar then some (Char.ofNatAux n h) else none
+
+def hexDecode (s : String) : Option (List Char) :=
+  if s = "_" then some [] else
+  (s.splitOn ".").mapM fun h => do
+    let n ← hexNat h
+    charOfCode n
+
+def hexOfNat (n : Nat) : String := String.ofList (Nat.toDigits 16 n)
+
+def hexEncode (l : List Char) : String :=
+  if l.isEmpty then "_" else ".".intercalate (l.map fun c => hexOfNat c.toNat)
+
+def showRes : Except PErr Move → String
+  | .ok m => s!"ok {showMove m}"
+  | .error .badMove => "bad"
+  | .error (.crash c) => s!"crash {c}"
+
+def showDen : Option Spec.PTNDen → String
+  | none => "none"
+  | some (.place x y k) =>
+    let ks := match k with | .flat => "flat" | .standing => "standing" | .cap => "cap"
+    s!"place {x} {y} {ks}"
+  | some (.slide x y dx dy cnt drops) =>
+    s!"slide {x} {y} {dx} {dy} {cnt} {",".intercalate (drops.map toString)}"
+
+def showTags (tags : List (List Char × List Char)) : String :=
+  if tags.isEmpty then "-" else
+  ";".intercalate (tags.map fun kv => s!"{hexEncode kv.1}:{hexEncode kv.2}")
+
+def showMoves (ms : List Move) : String :=
+  if ms.isEmpty then "-" else "|".intercalate (ms.map showMove)
+
+def showGame : Except PErr Game → String
+  | .ok g => s!"ok tags={showTags g.tags} moves={showMoves g.moves}"
+  | .error .badMove => "bad"
+  | .error (.crash c) => s!"crash {c}"
+
+/-- `Move8` of Props/C14.lean, decided -/
+def move8b (m : Move) : Bool := decide (Tak.C14.Move8 m)
+
+/-! ### the render script
+
+  tokens, in order:  `t:<key>:<value>` tag line (before any body token);
+  `w:<chars>` white space, `c:<body>` comment;
+  `m:<x>/<y>/<type>/<slides>:<annot>` a move written by `formatMove`,
+  `x:<text>:<annot>` a move written as given, `n:<digits>` move number, `d` `--`, `r:<a>:<b>` result. -/
+
+inductive Tok where
+  | tag (k v : List Char)
+  | gap (a : List GapAtom)
+  | item (i : Item)
+
+def parseTok (s : String) : Option Tok :=
+  match s.splitOn ":" with
+  | ["t", k, v] => do pure (.tag (← hexDecode k) (← hexDecode v))
+  | ["w", cs] => do pure (.gap ((← hexDecode cs).map GapAtom.ws))
+  | ["c", b] => do pure (.gap [GapAtom.comment (← hexDecode b)])
+  | ["m", mv, an] => do
+    let m ← Ser.parseMove (mv.splitOn "/")
+    pure (.item (.move (formatMove m) (← hexDecode an)))
+  | ["x", tx, an] => do pure (.item (.move (← hexDecode tx) (← hexDecode an)))
+  | ["n", ds] => do pure (.item (.number (← hexDecode ds)))
+  | ["d"] => some (.item .dashes)
+  | ["r", a, b] => do pure (.item (.result (← a.toNat?) (← b.toNat?)))
+  | _ => none
+
+structure Script where
+  tags : List (List Char × List Char) := []
+  lead : List GapAtom := []
+  items : List (Item × List GapAtom) := []
+
+/-- fold from the right: a gap token joins the element in front of it -/
+def build (toks : List Tok) : Script :=
+  toks.foldr (fun t (acc : Script × List GapAtom) =>
+      match t with
+      | .tag k v => ({ acc.1 with tags := (k, v) :: acc.1.tags }, acc.2)
+      | .gap a => (acc.1, a ++ acc.2)
+      | .item i => ({ acc.1 with items := (i, acc.2) :: acc.1.items }, []))
+    (({} : Script), ([] : List GapAtom)) |> fun (s, pending) => { s with lead := pending }
+
+def rangesStr (rs : List (Nat × Nat)) : String :=
+  ",".intercalate (rs.map fun r => s!"{r.1}-{r.2}")
+
+/-- ops:
+  `format <move4>`            → hex text                                       (formatMove)
+  `parse <hex>`               → `ok <move4>` | `bad` | `crash <cls>`           (parseMove)
+  `loose <hex>`               → `true` | `false`   (Spec.Loose: the widest language that may be accepted)
+  `denote <hex>`              → `none` | `place x y kind` | `slide x y dx dy count drops`   (Spec.ptnDenote)
+  `denotes <hex> <move4>`     → `n/a` (text not standard form) | `true` | `false`           (Spec.denotesMoveb)
+  `move8 <move4>`             → `true` | `false`
+  `same <move4> | <result>`   → `true` iff `<result>` is `ok` of the same move (round-trip / stability)
+  `game <hex>`                → `ok tags=… moves=…` | `bad` | `crash <cls>`    (PTN.parse)
+  `render <script…>`          → hex text                                       (PTN.render)
+  `initpos size <hex>|none`   → `ok <pos7>` | `crash <cls>`                    (initial_position, no TPS tag)
+  `classes space|digit|word`  → the table as `lo-hi,…`
+-/
+def handle : List String → Option String
+  | "format" :: rest => do
+    let m ← Ser.parseMove rest
+    pure (hexEncode (formatMove m))
+  | ["parse", h] => do
+    let t ← hexDecode h
+    pure (showRes (parseMove t))
+  | ["loose", h] => do
+    -- `Spec.Loose t`, decided through `C14_accepted_iff_loose`
+    let t ← hexDecode h
+    pure (match parseMove t with | .ok _ => "true" | .error _ => "false")
+  | ["denote", h] => do
+    let t ← hexDecode h
+    pure (showDen (Spec.ptnDenote t))
+  | "denotes" :: h :: rest => do
+    let t ← hexDecode h
+    let m ← Ser.parseMove rest
+    pure (match Spec.ptnDenote t with
+          | none => "n/a"
+          | some d => toString (Spec.denotesMoveb d m))
+  | "move8" :: rest => do
+    let m ← Ser.parseMove rest
+    pure (toString (move8b m))
+  | "same" :: rest => do
+    let m ← Ser.parseMove (rest.take 4)
+    match rest.drop 4 with
+    | "|" :: "ok" :: r2 => do
+      let m2 ← Ser.parseMove r2
+      pure (toString (decide (m = m2)))
+    | "|" :: _ => pure "false"
+    | _ => none
+  | ["game", h] => do
+    let t ← hexDecode h
+    pure (showGame (parse t))
+  | "render" :: rest => do
+    let toks ← rest.mapM parseTok
+    let s := build toks
+    pure (hexEncode (render s.tags s.lead s.items))
+  | ["initpos", "none"] =>
+    some (match initialPosition (fun _ => .error (.crash "no-oracle")) ⟨[], []⟩ with
+          | .ok p => s!"ok {showPos p}" | .error .badMove => "bad" | .error (.crash c) => s!"crash {c}")
+  | ["initpos", "size", h] => do
+    let v ← hexDecode h
+    pure (match initialPosition (fun _ => .error (.crash "no-oracle")) ⟨[(['S', 'i', 'z', 'e'], v)], []⟩ with
+          | .ok p => s!"ok {showPos p}" | .error .badMove => "bad" | .error (.crash c) => s!"crash {c}")
+  | ["classes", "space"] => some (rangesStr spaceRanges)
+  | ["classes", "digit"] => some (rangesStr digitRanges)
+  | ["classes", "word"] => some (rangesStr wordRanges)
+  | _ => none
 
 end Tak.Driver.PTN
